@@ -116,7 +116,7 @@ var directiveKW = map[string]bool{
 	"spec": true, "lemma": true, "axiom": true, "func": true, "requires": true, "ensures": true,
 	"loop": true, "call": true, "assigns": true, "pure": true, "trusted": true, "arith": true,
 	"decreases": true, "induction": true, "use": true, "props": true, "ret": true, "entry": true,
-	"unfold": true, "iter": true, "ghost": true, "opaque": true, "nosafety": true, "have": true, "free": true, "dead": true, "modifies": true, "reveal": true, "proto": true, "only": true, "pureas": true,
+	"unfold": true, "iter": true, "ghost": true, "opaque": true, "nosafety": true, "have": true, "free": true, "dead": true, "modifies": true, "reveal": true, "proto": true, "only": true, "pureas": true, "extern": true,
 }
 
 // collectAnnotations returns the //@ lines of a file, with positions.
@@ -280,6 +280,11 @@ func (cs *Contracts) parseFile(pkg string, lines []string, where string) {
 			cs.Lemmas[pkg+"."+lm.Name] = lm
 			cs.Order = append(cs.Order, pkg+"."+lm.Name)
 			curL, curF, curS = lm, nil, nil
+		case "extern":
+			// assumed contract of a function of a dependency: extern gjson.Result.ForEach
+			fc := &FuncContract{Pkg: pkg, Key: "ext." + strings.TrimSpace(it.text), Loops: map[int]*LoopSpec{}, Calls: map[int]*CallSpec{}, Src: where, Trusted: true, TrustWhy: "assumed contract of a dependency"}
+			cs.Funcs[fc.Key] = fc
+			curF, curL, curS = fc, nil, nil
 		case "func":
 			fc := &FuncContract{Pkg: pkg, Key: strings.TrimSpace(it.text), Loops: map[int]*LoopSpec{}, Calls: map[int]*CallSpec{}, Src: where}
 			fc.Placeholder = strings.Contains(where, "_api_")
